@@ -583,6 +583,10 @@ class BinaryReward(Rewards):
             o._argmax == self._argmax and \
             o._value == self._value)
 
+    def __reduce__(self):
+        #the repr-based state below is for result files, it can't carry actions such as Categoricals
+        return (BinaryReward, (self._argmax,self._value))
+
     def __getstate__(self):
         return repr((self._argmax,) if self._value == 1 else (self._argmax,self._value))
 
@@ -622,6 +626,9 @@ class HammingReward(Rewards):
 
         return create_shape(value,shape)
 
+    def __reduce__(self):
+        return (HammingReward, (self._argmax,))
+
     def __getstate__(self):
         return repr(self._argmax)
 
@@ -631,6 +638,9 @@ class HammingReward(Rewards):
     def __repr__(self) -> str:
         am = self._argmax
         return f"HammingReward({try_else(lambda:minimize(am),str(am))})"
+
+def _make_discrete_reward(args,default):
+    return DiscreteReward(*args,default=default)
 
 class DiscreteReward(Rewards):
     """A reward function mapping actions to rewards."""
@@ -692,6 +702,10 @@ class DiscreteReward(Rewards):
             o.actions == self.actions and\
             o.rewards == self.rewards and\
             o._default == self._default)
+
+    def __reduce__(self):
+        args = (self._state,) if isinstance(self._state,dict) else tuple(self._state)
+        return (_make_discrete_reward, (args,self._default))
 
     def __getstate__(self):
         return repr((self._state,self._default))
